@@ -73,6 +73,46 @@ class Case:
         return document(self.a2ml, [b[0] for b in self.blocks])
 
 
+# the eleven element kinds that can carry IF_DATA (closed obligation C18_ifdata_parents_of_the_shipped_grammar): frames that put one
+# IF_DATA block inside an element of that kind
+PARENT_FRAMES = [
+    '%s',
+    '/begin MEASUREMENT pm%d "" UBYTE NO_COMPU_METHOD 0 0 0 255\n%s\n/end MEASUREMENT',
+    '/begin CHARACTERISTIC pc%d "" VALUE 0 rl 0 NO_COMPU_METHOD 0 1\n%s\n/end CHARACTERISTIC',
+    '/begin AXIS_PTS pa%d "" 0 NO_INPUT_QUANTITY rl 0 NO_COMPU_METHOD 3 0 10\n%s\n/end AXIS_PTS',
+    '/begin BLOB pb%d "" 0 1\n%s\n/end BLOB',
+    '/begin FRAME pf%d "" 1 2\n%s\n/end FRAME',
+    '/begin FUNCTION pfn%d ""\n%s\n/end FUNCTION',
+    '/begin GROUP pg%d ""\n%s\n/end GROUP',
+    '/begin INSTANCE pi%d "" td 0\n%s\n/end INSTANCE',
+    '/begin MOD_PAR ""\n/begin MEMORY_LAYOUT PRG_CODE 0 0 -1 -1 -1 -1 -1\n%s\n/end MEMORY_LAYOUT\n/end MOD_PAR',
+    '/begin MOD_PAR ""\n/begin MEMORY_SEGMENT ps%d "" CODE FLASH INTERN 0 0 -1 -1 -1 -1 -1\n%s\n/end MEMORY_SEGMENT\n/end MOD_PAR',
+]
+
+
+def placed(blocks, shift):
+    """the blocks, each inside an element of another kind (at most one MOD_PAR per module: its frames are used once)"""
+    out, modpar = [], False
+    for j, b in enumerate(blocks):
+        k = (j + shift) % len(PARENT_FRAMES)
+        if k >= 9:
+            if modpar:
+                k = 4
+            modpar = True
+        f = PARENT_FRAMES[k]
+        out.append(f % ((j, b) if f.count('%') == 2 else (b,)))
+    return out
+
+
+class PlacedCase(Case):
+    """the same blocks, spread over the element kinds that can carry IF_DATA (the oracle of stage W looks at the blocks only; the
+    load and ifdata_cleanup() comparisons of stage C see the whole document)"""
+    shift = 0
+
+    def text(self):
+        return document(self.a2ml, placed([b[0] for b in self.blocks], self.shift))
+
+
 def mixed_blocks(rng, defn, ninst, ndev):
     blocks = []
     for _ in range(ninst):
@@ -108,7 +148,13 @@ def gen_cases(rng, tier):
                 d2 = g.gen_definition(rng, rng.choice([1, 2, 3]))
                 b2 = mixed_blocks(rng, d2, 2, 1)
                 cases.append(Case(text, g.render_definition(d2), [d2, d], blocks + b2, strict, 'both-different'))
-    return cases
+    extra = []
+    for i, c in enumerate(cases):
+        if i % 6 == 0 and len(c.blocks) >= 2:
+            pc = PlacedCase(c.a2ml, c.spec, c.defns, c.blocks, c.strict, c.label + '+placed')
+            pc.shift = 1 + (i // 6) % 10
+            extra.append(pc)
+    return cases + extra
 
 
 def number_tokens_beyond_i32(text):
